@@ -324,6 +324,7 @@ func runC05(w *World, r *Report) {
 	shareRule(w, r, "C05.map-keys-read-as-written", "the serialiser reads a map key back by the rule it wrote it with (a named string key is not written raw and read as JSON): a state with map[schema.RoleType]… survives the byte store", 1, "C12", "C12.key-codec-symmetric")
 	shareRule(w, r, "C05.agent-state-fields-exported", "the fields of the bundled agents' state are exported: the byte store writes exported fields only and skips the rest silently, so an unexported field (the return-directly call id) comes back empty after a resume", 1, "C12", "C12.registered-exported")
 	shareRule(w, r, "C05.interrupt-collects-every-task", "an interrupt waits for every task of the step, also behind a task that carries an error (a rerun request travels in task.err): a sibling that finishes later is otherwise neither parked in its successors' channels nor saved", 1, "C03", "C03.wait-all-drains")
+	shareRule(w, r, "C05.nested-checkpoint-holds-its-own-state-only", "a graph without a state of its own saves none in its checkpoint: a stateless nested graph that saved the parent's state would resume on a detached copy and its later writes be lost to the parent", 1, "C11", "C11.survives")
 
 	// ---- load-errors-kept
 	r.Rule("C05.load-errors-kept", "on the save / load path (package compose, internal/serialization) a success return after an error-yielding call is reached only where that error was tested nil: a checkpoint that cannot be read back is an error of the resume, never 'no checkpoint, start over' (shared with C13.no-dropped-error)", 1)
